@@ -269,7 +269,11 @@ _C13_QUICK = [
     'pool-unordered 1 1 3', 'pool-unordered 1 3 2', 'pool-unordered 2 3 2',
     'pool2-ordered 2 1 2', 'pool2-unordered 1 2 2', 'pool2t-unordered 2 1 1', 'pool2t-ordered 2 1 1', 'pool2t-unordered 1 1 1',
     'writer 1 0 2', 'writer 1 2 3', 'writer 2 3 2', 'writer 2 2 2 comp=3', 'writer2 2 2 1', 'writer2t 2 1 1',
-    'sorter 1 2 3', 'sorter 2 3 2', 'sorter 2 0 2',
+    'sorter 1 2 3', 'sorter 2 3 2', 'sorter 2 0 2', 'sorter 2 3 2 mem=40', 'sorter 1 4 2 mem=40',   # mem=40: two entries per chunk, a rest is still buffered when iteration starts
+    # two callers, three jobs and one job, on a pool of two: the smallest program in which BOTH callers wait for a worker at the same time without
+    # any preemption (the first caller fills the pool alone). Seed R6-C13: a wake-up that is only sent when the idle list was empty is lost on
+    # the second of two hand-backs. Bound 0 = every non-preemptive schedule (bound 1 of the symmetric two-jobs-each program is in the thorough tier: 800 000 executions).
+    'pool2t-unordered 2 3 0 j2=1', 'pool2t-ordered 2 3 0 j2=1',
     # the same programs with a scheduling point after every unlock as well (a statement moved behind an unlock is only visible there)
     'pool-unordered 1 2 2 unlockpts', 'pool-unordered 2 3 1 unlockpts', 'pool-ordered 2 3 1 unlockpts', 'writer 2 3 1 unlockpts', 'sorter 1 2 2 unlockpts',
 ]
@@ -297,7 +301,7 @@ CHECKS['C13'] = dict(
 _C14_QUICK = ['reader-shared 2 0 1', 'reader-shared 3 1 1', 'reader-shared 3 2 1', 'reader-shared 3 3 1', 'reader-shared 2 4 1', 'reader-shared 2 5 1',
               'writer 2 3 1 comp=5', 'writer 2 3 1 comp=2', 'writer2t 2 1 0 comp=5',
               'pool-ordered 2 3 1', 'pool-unordered 2 3 1', 'pool2t-unordered 2 1 1', 'pool2t-ordered 2 1 1',
-              'writer 2 3 1', 'writer 1 3 1', 'writer2 2 2 1', 'writer2t 2 1 1', 'sorter 2 3 1', 'sorter-destroy 2 2 1']
+              'writer 2 3 1', 'writer 1 3 1', 'writer2 2 2 1', 'writer2t 2 1 1', 'sorter 2 3 1', 'sorter 2 3 1 mem=40', 'sorter 2 4 1 mem=40', 'sorter-destroy 2 2 1']
 _C14_THOROUGH = ['pool-ordered 2 3 2', 'pool-unordered 2 3 2', 'writer 2 3 2', 'writer 2 4 1', 'sorter 2 3 2', 'sorter-destroy 2 3 2', 'reader-shared 4 1 1', 'pool2t-unordered 2 1 2', 'writer2t 2 1 2', 'writer2 2 2 2']
 _C14_FREE = ['reader-shared 4 3 0 free=20', 'writer2t 2 3 0 comp=5 free=20', 'writer 2 4 0 free=40', 'writer2t 2 3 0 free=40', 'sorter 2 4 0 free=40', 'pool2t-unordered 2 3 0 free=40', 'reader-shared 4 1 0 free=20']
 CHECKS['C14'] = dict(
